@@ -447,6 +447,21 @@ def classify_partial(snap, i):
     return None
 
 
+def in_tree(snap, i):
+    """Is alias node i reachable as a declared member from the collection (resolve_module_aliases only visits those)?"""
+    if not hasattr(snap, "_tree"):
+        seen, stack = set(), [j for _, j in snap.collection]
+        while stack:
+            j = stack.pop()
+            if j in seen:
+                continue
+            seen.add(j)
+            if snap.nodes[j][0] == "obj" and (snap.nodes[j][2] or j in [c for _, c in snap.collection]):
+                stack.extend(k for _, k in snap.nodes[j][3])
+        snap._tree = seen
+    return i in snap._tree
+
+
 def evaluate(ctx, files, loads, rec, case):
     """The property itself, on the implementation. Returns True when the run is usable for the model comparison."""
     if rec["stage"]:
@@ -470,6 +485,10 @@ def evaluate(ctx, files, loads, rec, case):
         ctx.observe("deref", d[0] + ("/resolved" if tgt else "/unresolved"))
         if d[0] not in ("ok", "are", "cyc"):
             ctx.property_failure(case, {"alias": path, "dereference": d}, finding=None)
+        if not tgt and d[0] == "ok" and not snap.nodes[i][5] and snap.ids.get(id(snap.objs[i])) is not None and in_tree(snap, i):
+            # resolve_aliases(implicit=True) stopped although this alias (not a wildcard pseudo-member) resolves
+            ctx.observe("left_unresolved", path.split(".")[-1])
+            ctx.property_failure(case, {"alias": path, "left_unresolved_by_resolve_aliases_but_dereferences_to": d}, finding=None)
         if tgt and d[0] in ("are", "cyc"):
             partial[path] = classify_partial(snap, i)
             ctx.observe("partial_chain", partial[path] or "unclassified")
@@ -616,6 +635,77 @@ def load_orders(rng, quick):
 
 
 # --------------------------------------------------------------------------------------------------------------------
+# packages side-loaded *during* resolve_aliases (external=True / the private sibling `_p` with external=None)
+# implementation vs property only: graphs without wildcard and without paths through members, where the theorems
+# leave no room for any partial chain, so every deviation is a new violation
+# --------------------------------------------------------------------------------------------------------------------
+EXT_MODS = {"p": ["p", "p.a"], "_p": ["_p", "_p.a"], "q": ["q", "q.a"]}
+
+
+def random_external(rng):
+    mods = [m for ms in EXT_MODS.values() for m in ms]
+    files = {}
+    for m in mods:
+        lines = []
+        for _ in range(rng.randint(1, 3)):
+            nm = rng.choice(NAMES[:2])
+            k = rng.random()
+            if k < 0.35:
+                lines.append(f"def {nm}(): ...")
+            else:
+                tgt = rng.choice(mods + ["zz"])
+                src = rng.choice(NAMES[:2])
+                lines.append(f"from {tgt} import {src}" + ("" if src == nm else f" as {nm}"))
+        files[m] = "\n".join(lines) + "\n"
+    return files
+
+
+def run_external(ctx, files, loads, external, label):
+    import griffe
+    root = str(ctx.scratch / "ext")
+    write_packages(files, root)
+    case = {"files": files, "loads": loads, "external": external, "stream": label}
+    ctx.case(case, True)
+    ctx.observe("stream", label)
+    loader = griffe.GriffeLoader(search_paths=[root], allow_inspection=False)
+    calls = []
+
+    def fail(what, detail):
+        ctx.property_failure(case, {"side_loading": what, **detail}, finding=None)
+
+    for pkg in loads:
+        r = guarded(lambda: loader.load(pkg, try_relative_path=False))
+        if r[0] != "ok":
+            return fail("load raised", {"outcome": r[:3]})
+    snap = None
+    for k in range(3):
+        r = guarded(lambda: loader.resolve_aliases(implicit=True, external=external))
+        if r[0] != "ok":
+            return fail(f"resolve_aliases call {k + 1} raised", {"outcome": r[:3]})
+        if snap is None:
+            snap = Snapshot(loader)                    # after the first call: includes what it side-loaded
+        calls.append((sorted(r[1][0]), r[1][1], snap.state(), sorted(loader.modules_collection.members)))
+        if k == 1:
+            for i in snap.alias_ids():
+                d = guarded(lambda i=i: deref(snap.objs[i]))
+                path, tgt = snap.nodes[i][1], calls[1][2][snap.alias_ids().index(i)][1]
+                if d[0] != "ok" or d[1][0] not in ("ok", "are", "cyc"):
+                    return fail("dereference", {"alias": path, "outcome": d[:3]})
+                ctx.observe("side_loaded_deref", d[1][0] + ("/resolved" if tgt else "/unresolved"))
+                if tgt and d[1][0] != "ok":
+                    fail("resolved alias does not dereference", {"alias": path, "outcome": d[1]})
+                if not tgt and d[1][0] == "ok" and in_tree(snap, i):
+                    fail("alias left unresolved although it resolves (fixpoint not reached)", {"alias": path, "to": d[1]})
+    ctx.observe("side_loaded_packages", len(calls[0][3]) - len(loads))
+    if calls[0][0] != calls[1][0] or calls[0][2] != calls[1][2] or calls[0][3] != calls[1][3] or calls[1][1] > 2:
+        changed = [b[0] for a, b in zip(calls[0][2], calls[1][2]) if a != b]
+        fail("second resolve_aliases is not a no-op", {"first": calls[0][:2], "second": calls[1][:2], "links_changed": changed,
+                                                        "collection": [calls[0][3], calls[1][3]]})
+    if any(p for st in (calls[0][2], calls[1][2], calls[2][2]) for _, _, p in st):
+        fail("passed-through flag left set", {})
+
+
+# --------------------------------------------------------------------------------------------------------------------
 # known-finding witnesses (replayed on the implementation on every run)
 # --------------------------------------------------------------------------------------------------------------------
 WITNESSES = {
@@ -666,8 +756,8 @@ def explore(ctx):
     chain2 = list(exhaustive_chain_graphs(["p", "p.a"], ["x", "y"], ["p.zz"]))                    # 8^4 = 4096
     through = list(exhaustive_chain_graphs(["p", "p.a"], ["x", "y"], ["p.zz", "p.m"], {"p": ["import p.a as m"]}))   # 10^4, p.m is an alias of module p.a
     if ctx.quick:
-        run_batch(ctx, [(g, ["p"], False) for g in rng.sample(chain2, 1500)], "exhaustive-chain(2x2) sample")
-        run_batch(ctx, [(g, ["p"], False) for g in rng.sample(through, 1200)], "exhaustive-through(2x2) sample")
+        run_batch(ctx, [(g, ["p"], False) for g in rng.sample(chain2, 1200)], "exhaustive-chain(2x2) sample")
+        run_batch(ctx, [(g, ["p"], False) for g in rng.sample(through, 1000)], "exhaustive-through(2x2) sample")
     else:
         ctx.exhaustive = True
         run_batch(ctx, [(g, ["p"], False) for g in chain2], "exhaustive-chain(2x2)")
@@ -677,10 +767,10 @@ def explore(ctx):
         run_batch(ctx, [(g, ["p"], False) for g in chain3], "exhaustive-chain(3x1)")
     # 2. exhaustive family with wildcard imports (3 modules, one name, one optional wildcard per module)
     wf3 = list(wildcard_family(["p", "p.a", "p.b"], "x", ["p", "p.a", "p.b", "p.zz"]))
-    run_batch(ctx, [(g, ["p"], False) for g in (rng.sample(wf3, ctx.budget(1200, 12000)) if len(wf3) > ctx.budget(1200, 12000) else wf3)],
+    run_batch(ctx, [(g, ["p"], False) for g in (rng.sample(wf3, ctx.budget(1000, 12000)) if len(wf3) > ctx.budget(1000, 12000) else wf3)],
               "wildcard-family(3x1)")
     # 3. random graphs, 5 and 6 modules
-    n = ctx.budget(1500, 20000)
+    n = ctx.budget(1200, 20000)
     run_batch(ctx, [(random_graph(rng, MODS5, NAMES), ["p"], False) for _ in range(n)], "random(5 modules)")
     run_batch(ctx, [(random_graph(rng, MODS5, NAMES, p_wild=0.0, p_through=0.35), ["p"], False) for _ in range(n // 2)],
               "random(5 modules, no wildcard)")
@@ -694,6 +784,15 @@ def explore(ctx):
             sub = {m: s for m, s in files.items() if m.split(".")[0] in order}
             batch.append((sub, order, bool(rng.getrandbits(1))))
     run_batch(ctx, batch, "load-orders(p,q,r)")
+    # 5. packages side-loaded during resolve_aliases: external=True, and the private sibling _p with external=None
+    for k in range(ctx.budget(250, 3000)):
+        files = random_external(rng)
+        if k % 2:
+            run_external(ctx, files, [rng.choice(["p", "q", "_p"])], True, "side-loading(external=True)")
+        else:
+            run_external(ctx, files, ["p"], None, "side-loading(external=None, _p)")
+        if len(ctx.prop_failures) >= 20:
+            break
     if not ctx.quick:
         sample = []
         for _ in range(40):
